@@ -291,6 +291,54 @@ pub fn install(prelude: &KMap) {
         let items: Vec<KIteratorOutput> = elements(ctx.args()).into_iter().map(KIteratorOutput::Value).collect();
         Ok(KIterator::with_std_forward_iter(items.into_iter()).into())
     });
+    // the host-facing operation API of the VM (run_unary_op / run_binary_op / run_read_op / run_write_op / call_function /
+    // make_iterator): `host_op name, operands...` runs the operation the way an embedding application would
+    prelude.add_fn("host_op", |ctx| {
+        let args = ctx.args().to_vec();
+        let name = match args.first() {
+            Some(KValue::Str(s)) => s.as_str().to_string(),
+            _ => return runtime_error!("host_op: expected an operation name"),
+        };
+        let arg = |i: usize| args.get(i).cloned().unwrap_or(KValue::Null);
+        let binary = |n: &str| Some(match n {
+            "+" => BinaryOp::Add, "-" => BinaryOp::Subtract, "*" => BinaryOp::Multiply, "/" => BinaryOp::Divide, "%" => BinaryOp::Remainder, "^" => BinaryOp::Power,
+            "+=" => BinaryOp::AddAssign, "-=" => BinaryOp::SubtractAssign, "*=" => BinaryOp::MultiplyAssign, "/=" => BinaryOp::DivideAssign, "%=" => BinaryOp::RemainderAssign,
+            "^=" => BinaryOp::PowerAssign, "<" => BinaryOp::Less, "<=" => BinaryOp::LessOrEqual, ">" => BinaryOp::Greater, ">=" => BinaryOp::GreaterOrEqual,
+            "==" => BinaryOp::Equal, "!=" => BinaryOp::NotEqual,
+            _ => return None,
+        });
+        if let Some(op) = binary(&name) {
+            return ctx.vm.run_binary_op(op, arg(1), arg(2));
+        }
+        match name.as_str() {
+            "negate" => ctx.vm.run_unary_op(UnaryOp::Negate, arg(1)),
+            "size" => ctx.vm.run_unary_op(UnaryOp::Size, arg(1)),
+            "display" => ctx.vm.run_unary_op(UnaryOp::Display, arg(1)),
+            "debug" => ctx.vm.run_unary_op(UnaryOp::Debug, arg(1)),
+            "iterator" => ctx.vm.run_unary_op(UnaryOp::Iterator, arg(1)),
+            "next" => ctx.vm.run_unary_op(UnaryOp::Next, arg(1)),
+            "next_back" => ctx.vm.run_unary_op(UnaryOp::NextBack, arg(1)),
+            "index" => ctx.vm.run_read_op(ReadOp::Index, arg(1), arg(2)),
+            "access" => ctx.vm.run_read_op(ReadOp::Access, arg(1), arg(2)),
+            "index_assign" => ctx.vm.run_write_op(WriteOp::IndexAssign, arg(1), arg(2), arg(3)),
+            "access_assign" => ctx.vm.run_write_op(WriteOp::AccessAssign, arg(1), arg(2), arg(3)),
+            "call" => ctx.vm.call_function(arg(1), &args[2.min(args.len())..]),
+            "call_instance" => ctx.vm.call_instance_function(arg(1), arg(2), &args[3.min(args.len())..]),
+            "to_string" => ctx.vm.value_to_string(&arg(1)).map(|s| KValue::from(s.as_str())),
+            "collect" => {
+                let mut out = Vec::new();
+                for item in ctx.vm.make_iterator(arg(1))? {
+                    match item {
+                        KIteratorOutput::Value(v) => out.push(v),
+                        KIteratorOutput::ValuePair(a, b) => out.push(KValue::Tuple(vec![a, b].into())),
+                        KIteratorOutput::Error(e) => return Err(e),
+                    }
+                }
+                Ok(KValue::Tuple(out.into()))
+            }
+            other => runtime_error!("host_op: unknown operation {other}"),
+        }
+    });
     prelude.add_fn("plog", |_| {
         let lines: Vec<KValue> = LOG.with(|l| l.borrow_mut().drain(..).map(|s| KValue::from(s.as_str())).collect());
         Ok(KValue::Tuple(lines.into()))
